@@ -70,8 +70,17 @@ func genConflictFree(c *Ctx, cfg GramCfg, productive bool) *Gram {
 	return nil
 }
 
+// unproductiveWitness is `S: a | b X; X: X c` (X derives no terminal string). The parser shifts `b`
+// and reports the error at token 1 although "b" is not a prefix of any sentence: the error-position
+// clause of C01 needs "all nonterminals productive" (hypothesis productiveOk of C01_lr_error_position).
+func unproductiveWitness() *Gram {
+	return &Gram{NT: 4, NN: 2, Shape: "unproductive-witness",
+		Rules:  []GRule{{LHS: 4, RHS: []int{1}}, {LHS: 4, RHS: []int{2, 5}}, {LHS: 5, RHS: []int{5, 3}}},
+		Inputs: []GInput{{Sym: 4, Eoi: true}}}
+}
+
 func c01(c *Ctx) {
-	c.Rule = "conflict-free random CFGs without precedence (1-5 nonterminals, 1-4 terminals, empty rules, several inputs, eoi/no-eoi, expression/list shapes; all nonterminals productive) rendered as .tm with `-> R<i>` on every rule and a random subset of optimizeTables/defaultReduce/minimizeDFA; the REAL compiler+generator produce Go parsers, built in one batch; per grammar: (1) Lean soundness certificate check on the real tables (hypothesis of theorem C01_lr_sound), (2) canonical LALR(1) cell comparison (unminimized only), (3) for every token string up to length 4-5 plus random sentences and mutations: the generated parser's listener trace and result/error offset vs the Lean runtime model on the real tables, and vs a brute-force recogniser (membership and error position); non-trivial = grammar with at least one lookahead state; distinct by grammar+options"
+	c.Rule = "conflict-free random CFGs without precedence (1-5 nonterminals, 1-4 terminals, empty rules, several inputs, eoi/no-eoi, expression/list shapes; all nonterminals productive) rendered as .tm with `-> R<i>` on every rule and a random subset of optimizeTables/defaultReduce/minimizeDFA; the REAL compiler+generator produce Go parsers, built in one batch; per grammar: (1) Lean soundness, completeness and viable-prefix certificate checks on the real tables (the hypotheses of C01_lr_sound, C01_lr_complete, C01_lr_error_position; minimized tables: soundness only), (2) canonical LALR(1) cell comparison (unminimized only), (3) for every token string up to length 4-5 plus random sentences and mutations: the generated parser's listener trace and result/error offset vs the Lean runtime model on the real tables, and vs a brute-force recogniser (membership and error position); start-up probe: the fixed grammar 'S: a | b X; X: X c' with an unproductive nonterminal (excluded from the sample) is compiled and run on 'b' [C01-unproductive-error-position]; non-trivial = grammar with at least one lookahead state; distinct by grammar+options"
 	nG := c.N(24, 400)
 	batchSize := 24
 	cfg := GramCfg{MaxNT: 4, MaxNN: 5, MaxRules: 3, MaxRHS: 4, MultiInput: true, PEmpty: 0.15}
@@ -99,6 +108,23 @@ func c01(c *Ctx) {
 			b.Add(gp)
 			items = append(items, c01Item{g, gp})
 		}
+		// start-up probe: does the real compiler accept a grammar with an unproductive nonterminal?
+		var wit *c01Item
+		if done == 0 {
+			wg := unproductiveWitness()
+			_, werr, wpan := compileLalr(wg.Lalr(), lalr.Options{})
+			wo := TMOpts{ArrowPerRule: true}
+			if wpan == "" && werr == nil {
+				if wgp := compileTM("gwit", wg.TM("gwit", wo), wo); wgp.Err == nil {
+					b.Add(wgp)
+					wit = &c01Item{wg, wgp}
+				} else {
+					c.Count("unproductive witness rejected by the front end: " + firstWords(errSummary(wgp.Err), 8))
+				}
+			} else {
+				c.Count("unproductive witness rejected by lalr.Compile")
+			}
+		}
 		if len(items) == 0 {
 			b.Close()
 			continue
@@ -125,8 +151,30 @@ func c01(c *Ctx) {
 				}
 			}
 		}
+		if wit != nil {
+			// last request, after those described by metas
+			reqs = append(reqs, RunReq{Parser: wit.gp.Name, Input: 0, Text: "b"})
+		}
 		outs := b.Run(reqs)
 		b.Close()
+		if wit != nil {
+			gp := wit.gp
+			t := gp.G.Parser.Tables
+			nt := gp.G.Parser.NumTerminals
+			goAns := translateTrace(gp, outs[len(outs)-1])
+			toks, _ := tokenize(gp, "b")
+			c.Debugf("unproductive witness %s: validate %s %s %s", wit.g.Pretty(), gp.ProtoGrammar(), tablesStr(t, nt), b2s(t.Optimized != nil))
+			// the model agrees with the generated parser on the witness
+			c.Case(fmt.Sprintf("run %s %s 0 %s 1", tablesStr(t, nt), b2s(t.Optimized != nil), toks), goAns, "")
+			spec := sentenceSpec(wit.g, wit.g.Inputs[0], []int{2})
+			res := goAns[strings.LastIndex(goAns, " ")+1:]
+			c.Count("unproductive witness compiles: spec " + spec + " parser " + res)
+			if spec == "E0" && res != "err:0:1" {
+				c.Violate(fmt.Sprintf("grammar with an unproductive nonterminal compiles without error and its parser reports the syntax error on %q at %s although the consumed prefix %q is not a prefix of any sentence (property text expects the error at token 0) [C01-unproductive-error-position]", "b", res, "b"), wit.g.Pretty())
+			}
+			reqs = reqs[:len(reqs)-1]
+			outs = outs[:len(outs)-1]
+		}
 		// per grammar: validation cases
 		knownClass := map[string]bool{}
 		for _, it := range items {
@@ -147,9 +195,17 @@ func c01(c *Ctx) {
 				// merged states are not the canonical LR(0) collection: completeness certificate skipped
 				vline += " nocompl"
 			}
-			if v := c.Lean([]string{vline}); strings.Contains(v[0], "[C01-shared-final-state]") {
+			v := c.Lean([]string{vline})
+			switch {
+			case strings.Contains(v[0], "[C01-shared-final-state]"):
 				knownClass[it.gp.Name] = true
 				c.Count("known class: shared final state")
+			case v[0] == "ok" && !it.gp.Opts.Minimize:
+				c.Count("certificates: soundness + completeness + viable-prefix all hold (hypotheses of every C01 theorem)")
+			case v[0] == "ok":
+				c.Count("certificates: soundness only (minimized tables: item certificates skipped)")
+			default:
+				c.Count("certificates: rejected")
 			}
 			c.Case(vline, "ok", key)
 			if !it.gp.Opts.Minimize {
